@@ -297,6 +297,56 @@ func c16Round(w *mon.W, round int) {
 				c.srv.LeaveRoom(fresh)
 			}
 		}
+		// last-leave storm: the only member of a room leaves while another connection joins it
+		// (a room object that is dropped when it empties must not swallow the joiner)
+		{
+			var live []*c16Client
+			for _, c := range x.clients {
+				if c.srv != nil && !c.closed.Load() {
+					live = append(live, c)
+				}
+			}
+			if len(live) >= 2 {
+				room := fmt.Sprintf("lastleave-%d", phase)
+				a, b := live[phase%len(live)], live[(phase+1)%len(live)]
+				var sw sync.WaitGroup
+				var stop atomic.Bool
+				sw.Add(2)
+				go func() { // the member that keeps emptying the room
+					defer sw.Done()
+					for i := 0; i < 400 && !stop.Load(); i++ {
+						a.srv.JoinRoom(room)
+						a.srv.LeaveRoom(room)
+					}
+				}()
+				go func() { // the joiner: after its own join returned, the views must agree about it
+					defer sw.Done()
+					for i := 0; i < 400 && !stop.Load(); i++ {
+						b.srv.JoinRoom(room)
+						r2, exists := rm.GetRoom(room)
+						in := exists && r2.Has(b.srv)
+						own := b.srv.IsInRoom(room)
+						if own != in {
+							// re-read once: a refusal (room full) undoes the join in two steps
+							r2, exists = rm.GetRoom(room)
+							in = exists && r2.Has(b.srv)
+							own = b.srv.IsInRoom(room)
+						}
+						w.Count("last_leave_vs_join_checks", 1)
+						if own != in {
+							w.Violate("membership-views-disagree:join-racing-last-leave", fmt.Sprintf("client %d joined room %s while its only other member (client %d) kept joining and leaving; after its JoinRoom returned IsInRoom=%v, room known to the manager=%v, room.Has=%v", b.idx, room, a.idx, own, exists, in), wit(map[string]interface{}{"room": room}))
+							stop.Store(true)
+							return
+						}
+						b.srv.LeaveRoom(room)
+					}
+				}()
+				sw.Wait()
+				x.ops.Add(1600)
+				a.srv.LeaveRoom(room)
+				b.srv.LeaveRoom(room)
+			}
+		}
 		var wg sync.WaitGroup
 		seeds := make([]int64, 8)
 		for g := range seeds {
